@@ -77,6 +77,12 @@ def run_ops_property(prop, configs, modes, tier, seed, quick_count=220, thorough
         good = [c for c in cand if mres0[c["id"]]["part"] is not None]
         bad = [c for c in cand if mres0[c["id"]]["part"] is None]
         keep = good[:count] + bad[: max(3, count // 10)]
+        for c in keep:
+            part = mres0[c["id"]]["part"]
+            if part is not None:
+                extra = ops.tie_queries(rng, c, part)
+                base_k = len(c["queries"])
+                c["queries"] = c["queries"] + [(base_k + 1 + i, b, a) for i, (b, a) in enumerate(extra)]
         cases += keep
     if extra_cases:
         cases += extra_cases
